@@ -119,6 +119,79 @@ def check_index_decoded(p, report, classes, rule):
                        detail=f"{n_src} index source(s), all decoded on every path", nontrivial=n_src > 0)
 
 
+def check_wrapper_guards(p, report, rule):
+    sc = p.get_class("SklearnClassifier")
+    pp = sc.methods.get("predict_proba") if sc else None
+    fit = sc.methods.get("_fit") if sc else None
+    if pp is None or fit is None:
+        raise AnalysisError("SklearnClassifier.predict_proba / _fit vanished")
+    tree = FuncTree(pp.node)
+    est_names = {t.id for n in ast.walk(pp.node) if isinstance(n, ast.Assign) and isinstance(n.value, ast.Call)
+                 and isinstance(n.value.func, ast.Attribute) and n.value.func.attr == "predict_proba"
+                 and "estimator_" in ast.unparse(n.value.func.value) for t in n.targets if isinstance(t, ast.Name)}
+    # names the estimator's output is re-mapped into (P = P_ext)
+    for _ in range(2):
+        for n in ast.walk(pp.node):
+            if isinstance(n, ast.Assign) and len(n.targets) == 1 and isinstance(n.targets[0], ast.Name) \
+                    and n.targets[0].id in est_names and isinstance(n.value, ast.Name):
+                est_names.add(n.value.id)
+    k = 0
+    for r in ast.walk(pp.node):
+        if isinstance(r, ast.Return) and isinstance(r.value, ast.Name) and r.value.id in est_names:
+            guarded = any(isinstance(owner, ast.If) and field == "body" and "isnan" in ast.unparse(owner.test)
+                          and r.value.id in names_in(owner.test) for (s_, owner, field, idx) in tree.ancestors(r))
+            k += 1
+            report.add(rule, pp.qual, f"`{norm_stmt(r, 40)}` hands on the estimator's probabilities after the NaN check", f"{pp.file}:{r.lineno}",
+                       guarded, detail="under `not np.any(np.isnan(P))`" if guarded else
+                       "this return is not under the NaN check: if the wrapped estimator reports NaN probabilities they are "
+                       "returned instead of the label-frequency fallback")
+    if k == 0:
+        raise AnalysisError("SklearnClassifier.predict_proba: no return of the estimator's probabilities found")
+    # partial_fit: `classes` handed to the estimator on every partial_fit path
+    ftree = FuncTree(fit.node)
+    pf_calls = [c for c in ast.walk(fit.node) if isinstance(c, ast.Call) and isinstance(c.func, ast.Attribute)
+                and c.func.attr == "partial_fit" and "estimator_" in ast.unparse(c.func.value)]
+    for c in pf_calls:
+        st = ftree.stmt_of(c)
+        has = any(kk.arg == "classes" for kk in c.keywords)
+        if not has:
+            # `fit_kwargs["classes"] = ...` dominating the call in the same branch
+            blk = ftree.block_of.get(st)
+            cur = st
+            while not has and cur is not None:
+                blk = ftree.block_of.get(cur)
+                if blk is None:
+                    break
+                owner_, field_, idx_ = blk
+                for prev in getattr(owner_, field_)[:idx_]:
+                    if isinstance(prev, ast.Assign) and isinstance(prev.targets[0], ast.Subscript) \
+                            and isinstance(prev.targets[0].slice, ast.Constant) and prev.targets[0].slice.value == "classes":
+                        has = True
+                if isinstance(owner_, ast.FunctionDef):
+                    break
+                cur = owner_
+        report.add(rule, fit.qual, f"`{norm_stmt(c, 50)}` tells the estimator all classes", f"{fit.file}:{c.lineno}", has,
+                   detail="classes passed" if has else
+                   "partial_fit of the wrapped estimator is called without `classes` on this path: scikit-learn raises on the first "
+                   "call, the wrapper swallows it and keeps predicting from the label frequencies")
+    # cold-start frequencies are float
+    for ci in p.classes.values():
+        if "/tests/" in ci.file or not p.is_subclass(ci, "ClassFrequencyEstimator"):
+            continue
+        f = ci.methods.get("predict_freq")
+        if f is None:
+            continue
+        for r in ast.walk(f.node):
+            if isinstance(r, ast.Return) and isinstance(r.value, ast.Call) and (c01.callname(r.value) or "").split(".")[-1] in ("full", "full_like"):
+                fill = r.value.args[1] if len(r.value.args) > 1 else None
+                dt = any(kk.arg == "dtype" for kk in r.value.keywords)
+                okf = dt or (isinstance(fill, ast.Constant) and isinstance(fill.value, float))
+                report.add(rule, f.qual, f"`{norm_stmt(r, 50)}` is a float array", f"{f.file}:{r.lineno}", okf,
+                           detail="float fill / explicit dtype" if okf else
+                           "np.full takes its dtype from the fill value: an integer fill gives an integer frequency array and the "
+                           "in-place normalisation of predict_proba raises")
+
+
 def check_member_classes(p, report, rule):
     from ..paths import MustAnalysis, Const
     f = p.get_method("AnnotatorEnsembleClassifier", "fit")
@@ -340,6 +413,12 @@ def run(p, report, tier):
                 "`member.set_params(classes=...)` has been executed (otherwise a member that has not seen every "
                 "class returns fewer probability columns than classes_)", floor=2)
     check_member_classes(p, report, "R11.10")
+    report.rule("R11.11", "what the wrapped estimator reports is handed on only after the NaN check: in "
+                "SklearnClassifier.predict_proba every return of (a re-mapping of) `estimator_.predict_proba(...)` sits "
+                "under a test that contains `isnan` of the returned value (else the label-frequency fallback is skipped "
+                "and rows of NaN leave the method); a weighted and an unweighted partial_fit hand the same `classes` "
+                "to the estimator; the cold-start frequencies are a float array", floor=3)
+    check_wrapper_guards(p, report, "R11.11")
     report.rule("R11.9", "the vote counts every frequency-based classifier builds its probabilities on are finite and "
                 "non-negative: compute_vote_vectors zeroes the weights at missing labels AND at NaN confidences before "
                 "they are summed (shared with C17 R17.2)", floor=4)
